@@ -583,15 +583,15 @@ def to_lean(p, ind="  "):
         return ".ret"
     if k == "seq":
         if not p["ps"]:
-            return ".seq []"
-        return ".seq [\n" + ",\n".join(ind + "  " + to_lean(q, ind + "  ") for q in p["ps"]) + "]"
+            return ".skip"
+        return "seqs [\n" + ",\n".join(ind + "  " + to_lean(q, ind + "  ") for q in p["ps"]) + "]"
     if k == "ite":
         return '.ite %s\n%s  (%s)\n%s  (%s)' % (guard_lean(p["g"]), ind, to_lean(p["t"], ind + "  "), ind, to_lean(p["e"], ind + "  "))
     if k == "loop":
         return ".loop %s\n%s  (%s)" % (guard_lean(p["g"]), ind, to_lean(p["p"], ind + "  "))
     if k == "switch":
         cs = ",\n".join('%s  (%s, %s)' % (ind, slist(c["labels"]), to_lean(c["p"], ind + "    ")) for c in p["cases"])
-        return '.switch "%s" [\n%s]' % (esc(p["on"]), cs)
+        return 'switchOf "%s" [\n%s]' % (esc(p["on"]), cs)
     raise Refuse("unknown node " + k)
 
 
